@@ -542,7 +542,7 @@ fn run_world(out: &mut Out, run: &mut u64, seed: u64, cfg: &Cfg, variant: Varian
 }
 
 fn twin(o: &Opts, out: &mut Out, run: &mut u64) {
-    let n = if o.thorough() { 110 } else { 12 };
+    let n = if o.thorough() { 110 } else { 8 };
     for k in 0..n {
         let cfg = Cfg { thorough: o.thorough(), steps_per_session: if o.thorough() { 14 } else { 10 }, risky: 0.035, low_gas: false, max_len: 1 << 20, gas: None };
         let seed = o.seed.wrapping_mul(1000).wrapping_add(k);
@@ -557,7 +557,7 @@ fn twin(o: &Opts, out: &mut Out, run: &mut u64) {
 
 /// random / unit gas schedules, little forwarded gas, $cgas poked down: exact charges incl. hot vs cold, OutOfGas
 fn gas(o: &Opts, out: &mut Out, run: &mut u64) {
-    let n = if o.thorough() { 60 } else { 6 };
+    let n = if o.thorough() { 60 } else { 4 };
     let mut rng = o.rng(3326);
     for k in 0..n {
         let costs = match k % 3 { 0 => GasCosts::unit(), 1 => random_gas(&mut rng, 9), _ => random_gas(&mut rng, 300) };
@@ -572,7 +572,7 @@ fn gas(o: &Opts, out: &mut Out, run: &mut u64) {
 
 /// small maximum slot length: the StorageOutOfBounds boundary of writes / updates; many panic-aimed steps
 fn small(o: &Opts, out: &mut Out, run: &mut u64) {
-    let n = if o.thorough() { 60 } else { 6 };
+    let n = if o.thorough() { 60 } else { 5 };
     for k in 0..n {
         let cfg = Cfg { thorough: o.thorough(), steps_per_session: 8, risky: 0.3, low_gas: false, max_len: [64u64, 33, 100, 32, 16][k as usize % 5], gas: None };
         let seed = o.seed.wrapping_mul(1000).wrapping_add(800 + k);
@@ -590,7 +590,7 @@ fn ext(o: &Opts, out: &mut Out, run: &mut u64) {
     let mut vm = Vm::<MemoryStorage>::with_storage(MemoryInstance::new(), ws.w.storage.clone(), ws.w.iparams());
     let tx_offset = vm.tx_offset() as u64;
     out.ev(json!({"ev": "Seg"}));
-    let n = if o.thorough() { 60 } else { 20 };
+    let n = if o.thorough() { 60 } else { 13 };
     for t in 0..n {
         let tx = build_tx(&mut ws, &[], 1_000_000, tx_offset);
         *run += 1;
